@@ -41,7 +41,16 @@ fn read_lines(path: &str) -> Vec<String> {
 }
 
 fn worker(path: &str, start: usize, end: usize) {
-  std::panic::set_hook(Box::new(|_| {}));
+  if std::env::var("RSV_BACKTRACE").is_err() {
+    // silent, but remember where the panic came from
+    std::panic::set_hook(Box::new(|info| {
+      let loc = info
+        .location()
+        .map(|l| format!("{}:{}", l.file(), l.line()))
+        .unwrap_or_default();
+      exec::LAST_PANIC.with(|c| *c.borrow_mut() = loc);
+    }));
+  }
   let lines = read_lines(path);
   let stdout = std::io::stdout();
   let mut out = BufWriter::new(stdout.lock());
